@@ -160,7 +160,7 @@ func runC25(c *Ctx) {
 			c.Check("C25.rebase.values", fnName(est)+": store "+f+" := "+kindC25(desc(st.Val)), desc(st.Addr) == "$0."+f && desc(st.Val) == want, p.Pos(posOf(st, est)), "stored "+desc(st.Val))
 		}
 	}
-	c.Floor("C25.rebase.values", nst, 4)
+	c.Floor("C25.rebase.values", nst, 2) // at least one store per reference field (MustPrecede above ties them to every `return now`)
 	// steady path: no store to the reference before returning computed
 	if countTargets(est, retComputed) > 0 {
 		anyRefStore := func(i ssa.Instruction) bool {
@@ -202,7 +202,7 @@ func runC25(c *Ctx) {
 			}
 		}
 	}
-	c.Floor("C25.writers", nw, 4)
+	c.Floor("C25.writers", nw, 2)
 
 	// ---- users: literals set ClockRate; Estimate is called with a PTS
 	nl := 0
